@@ -27,7 +27,7 @@ REQUIRED = {"steps.call_log": {"quick": 2500, "thorough": 100000}, "steps.status
             "history.second_run_status": {"quick": 100, "thorough": 4000}, "steprun.return_iff_not_failed": {"quick": 5000, "thorough": 200000},
             "steps.subprocess_call_log": {"quick": 20, "thorough": 200}}
 REQUIRED_SEEN = {"step_status": ["passed", "failed", "error", "pending", "pending_warn", "undefined", "skipped", "untested"],
-                 "background_step_with_placeholder": ["feature"], "step_skips_rest_of": ["feature", "rule"], "autoretry_patch_style": ["rows", "as_listed"],
+                 "background_step_with_placeholder": ["feature"], "step_skips_rest_of": ["feature", "rule"], "step_definition_kind": ["parameterless_cucumber_expression"], "autoretry_patch_style": ["rows", "as_listed"],
                  "error_exception_class": ["RuntimeError", "ValueError", "KeyError", "NotImplementedError", "OSError", "LookupError",
                                            "TypeError", "ZeroDivisionError", "CustomError", "AttributeError"]}
 EXHAUSTIVE = True
@@ -271,7 +271,7 @@ def run(spec, mon):
             # backgrounds at both levels, outlines inside rules, examples placeholders inside background steps
             case = RB.gen_case(rng, p_names=0.1, gen={"p_bg_param": 0.4, "p_background": 0.7, "p_rule_background": 0.6,
                                                       "p_outline": 0.45} if i % 3 == 1 else
-                               {"p_bg_param": 0.3, "outcomes": OUTCOMES + ["skip_feature", "skip_rule"],
+                               {"p_bg_param": 0.3, "p_cuke": 0.2, "outcomes": OUTCOMES + ["skip_feature", "skip_rule"],
                                 "weights": {"skip_feature": 3.0, "skip_rule": 2.0}, "p_nonpass": 0.25})
             for oc in ("skip_feature", "skip_rule"):
                 if oc in case["program"]["outcomes"].values():
@@ -282,7 +282,9 @@ def run(spec, mon):
     # ---- the same through `python -m behave` (step modules loaded from a steps directory with two modules) -------
     from ..lab.subproc import Project
     for i in range(2 if tier == "quick" else 20):
-        case = RB.gen_case(rng, p_dry=0.1, gen={"p_bg_param": 0.3})
+        case = RB.gen_case(rng, p_dry=0.1, gen={"p_bg_param": 0.3, "p_cuke": 0.3})
+        if any(t[:1] == "c" for t in case["program"]["outcomes"]):
+            mon.seen("step_definition_kind", "parameterless_cucumber_expression")
         pred = runmodel.predict(case["program"], case["cfg"])
         proj = Project(case["program"], {})
         try:
